@@ -424,3 +424,7 @@ PROPS["C14"]["unproved"] = ["string round trip for plans outside the side condit
 
 # ---- pixel-level entry points around valid symbols (harness gen c05p) ----
 PROPS["C05"]["gens"] = ["c05d", "c05r", "c05p"]
+
+# ---- shape of every successful encoding (Props/C02Shape.lean) ----
+PROPS["C02"]["lean"] = ["DM.Props.C02", "DM.Props.C02Shape"]
+PROPS["C02"]["explanation"] += " Theorem run_shape (DM/Props/C02Shape.lean): for every plan and prefix, a successful run of the encoder model returns a symbol that is a member of the supplied list - the first one large enough for the codewords the mode encoders wrote -, exactly that symbol's number of data codewords, and after the encoders' codewords exactly the standard's padding (UNLATCH if needed, 129, 253-state randomised pads)."
